@@ -584,6 +584,23 @@ def sorted_values(I, st, items, key=None, reverse=False):
     if all(obj_lt(I, cur, k) for k in keys):
         yield from sort_objects(I, cur, items, keys, reverse)
         return
+    # tuples whose concrete leading components are pairwise distinct: lexicographic comparison is decided inside
+    # that prefix (the first differing position lies in it), the symbolic rest is never compared
+    if all(isinstance(k, tuple) for k in keys):
+        maxp = min(len(k) for k in keys)
+        for p in range(1, maxp + 1):
+            if not all(conc(k[:p]) for k in keys):
+                break
+            prefixes = [k[:p] for k in keys]
+            if all(prefixes[i] != prefixes[j] for i in range(len(keys)) for j in range(i)):
+                try:
+                    order = sorted(range(len(items)), key=lambda i: prefixes[i], reverse=bool(reverse))
+                except TypeError:
+                    yield cur, exc("TypeError", "unorderable")
+                    return
+                I.trust("sorted", "A3: sorted/list.sort is the stable ordering permutation w.r.t. <")
+                yield cur, [items[i] for i in order]
+                return
     raise Unsupported("sorting symbolic keys")
 
 
